@@ -49,7 +49,9 @@ EXPLANATION = (
     'R5 (K6): every un-keyed sorted()/sort()/min()/max() in scope whose elements are instances of a repository class relies on a __lt__ '
     'whose decision table is a strict total order consistent with __eq__. R5 covers every repository class that defines __lt__ (total_ordering classes without __eq__: the constructor-bound '
     'fields stand for the identity). Does NOT decide byte equality across runs (run-time relation), whether serialised state is dumped '
-    'before later configure steps mutate objects it aliases (e.g. dump_coredata vs. postconf hooks: run-time aliasing), whether per-machine cache keys carry the machine (DependencyCache), '
+    'before later configure steps mutate objects it aliases (e.g. dump_coredata vs. postconf hooks: run-time aliasing), whether per-machine cache keys carry the machine (DependencyCache) or a result cache key covers every input of the '
+    'cached computation (run_check_cache), lists shared by aliasing between dict entries (add_*_arguments), hash order in the other '
+    'mesonbuild/modules/*.py (information in the thorough tier: _qt tools dict, gnome gresource lookup, hotdoc include list - not exercised), '
     'run-state files that no build edge reads and that are rewritten on every configuration by design (intro-*.json, meson-private/*.dat, '
     'depmf.json, install/test pickles), the stale declaration kept by OptionStore.update_project_options for an unchanged type (C08), '
     'orders that come from the file system or the environment, or hash order hidden behind untyped values (reported as information).')
